@@ -33,7 +33,7 @@ fn optional_kind(cid: u8) -> bool {
 }
 
 /// MAC commands carried by an uplink (FOpts, or the port-0 FRMPayload).
-fn uplink_cmds(bytes: &[u8], keys: &([u8; 16], [u8; 16], u32), fcnt_hint: Option<u32>) -> Option<Result<Vec<Ans>, String>> {
+pub fn uplink_cmds(bytes: &[u8], keys: &([u8; 16], [u8; 16], u32), fcnt_hint: Option<u32>) -> Option<Result<Vec<Ans>, String>> {
     let p = rc::parse_data(bytes)?;
     if !p.is_uplink() {
         return None;
@@ -255,6 +255,11 @@ impl Monitor for Mon {
                 let stream: &[u8] = if *fport == Some(0) { plain } else { fopts };
                 let reqs = parse_downlink_cmds(stream);
                 if let (Some(b), Some(a)) = (&rec.snap_before, &rec.snap_after) {
+                    let mut b = b.clone();
+                    if let Some(dr) = super::app_set_dr_mid(w, rec) {
+                        // the application changed the data rate itself after the transmission, before the downlink
+                        b.data_rate = dr;
+                    }
                     self.pending = Some(PendingDl { reqs: reqs.clone(), before: b.clone(), after: a.clone(), desc: format!("{region:?} downlink with {:?}", reqs) });
                     self.sticky = None;
                     stats.bump("probe.classA-downlink-with-commands");
@@ -267,6 +272,11 @@ impl Monitor for Mon {
             if d.verdict.is_reject() && self.sticky.as_ref().map(|s| !s.is_empty()).unwrap_or(false) {
                 stats.bump("probe.rejected-frame-while-sticky-pending");
             }
+        }
+        if rec.result == OpResult::SessionExpired {
+            // the session is over: whether the frame that ended it counted as accepted is not stated
+            self.pending = None;
+            self.sticky = None;
         }
         self.fcnt_up_before = rec.fcnt_up_after;
         None
@@ -324,7 +334,38 @@ impl Property for C08 {
             Tier::Thorough => 15_000_000,
         }
     }
-    fn generate(&self, seed: u64, run: u64, tier: Tier, _avoid: &BTreeSet<String>) -> MacCase {
+    fn generate(&self, seed: u64, run: u64, tier: Tier, avoid: &BTreeSet<String>) -> MacCase {
+        // one run in five borrows another property"s generator (same case type), so that this oracle also
+        // judges histories of shapes its own generator does not produce
+        if let Some(c) = super::cross_generate("C08", &["C04", "C05", "C07", "C09", "C10"], seed, run, tier, avoid) {
+            return c;
+        }
+        self.own_generate(seed, run, tier, avoid)
+    }
+    fn execute(&self, case: &MacCase, want_trace: bool) -> Outcome {
+        let mut mon = Mon { pending: None, sticky: None, cur_keys: None, fcnt_up_before: Some(case.cfg.fcnt_up0) };
+        let out = run_case(case, &mut mon, want_trace);
+        Outcome { violation: out.violation, stats: out.stats, trace: out.trace }
+    }
+    fn self_test(&self) -> Result<(), String> {
+        crate::self_test_refs()?;
+        let reqs = parse_downlink_cmds(&[0x03, 0x50, 0x07, 0x00, 0x01, 0x06, 0x08, 0x02, 0xFF]);
+        if reqs.len() != 3 {
+            return Err("downlink command parser".into());
+        }
+        let exp = expected_answers(RegionId::EU868, &reqs);
+        if exp.iter().map(|e| e.cid).collect::<Vec<_>>() != vec![0x03, 0x06, 0x08] {
+            return Err("expected answers".into());
+        }
+        Ok(())
+    }
+    fn expected_probes(&self, _tier: Tier) -> Vec<&'static str> {
+        vec!["probe.classA-downlink-with-commands", "probe.acked-request-checked", "probe.naked-request-checked", "probe.answer-overflow-15-bytes", "probe.sticky-repeat-checked", "probe.rejected-frame-while-sticky-pending", "probe.rxc-reception-before-answers"]
+    }
+}
+
+impl C08 {
+    pub fn own_generate(&self, seed: u64, run: u64, tier: Tier, _avoid: &BTreeSet<String>) -> MacCase {
         let n_sweep = super::c04::sweep_items(RegionId::EU868).len() as u64 * 27;
         let sweep_run = match tier {
             Tier::Thorough if run < n_sweep => Some(run),
@@ -391,25 +432,5 @@ impl Property for C08 {
             }
         }
         MacCase { cfg, ops, knob: 0 }
-    }
-    fn execute(&self, case: &MacCase, want_trace: bool) -> Outcome {
-        let mut mon = Mon { pending: None, sticky: None, cur_keys: None, fcnt_up_before: Some(case.cfg.fcnt_up0) };
-        let out = run_case(case, &mut mon, want_trace);
-        Outcome { violation: out.violation, stats: out.stats, trace: out.trace }
-    }
-    fn self_test(&self) -> Result<(), String> {
-        crate::self_test_refs()?;
-        let reqs = parse_downlink_cmds(&[0x03, 0x50, 0x07, 0x00, 0x01, 0x06, 0x08, 0x02, 0xFF]);
-        if reqs.len() != 3 {
-            return Err("downlink command parser".into());
-        }
-        let exp = expected_answers(RegionId::EU868, &reqs);
-        if exp.iter().map(|e| e.cid).collect::<Vec<_>>() != vec![0x03, 0x06, 0x08] {
-            return Err("expected answers".into());
-        }
-        Ok(())
-    }
-    fn expected_probes(&self, _tier: Tier) -> Vec<&'static str> {
-        vec!["probe.classA-downlink-with-commands", "probe.acked-request-checked", "probe.naked-request-checked", "probe.answer-overflow-15-bytes", "probe.sticky-repeat-checked", "probe.rejected-frame-while-sticky-pending", "probe.rxc-reception-before-answers"]
     }
 }
